@@ -11,6 +11,7 @@ RULE = ("Hypothesis-generated configurations biased to storms (20-300 mm), bunds
         "application efficiency 30-100 %; every simulated day is one evaluation. Non-trivial configuration: >=1 day with "
         "curve-number runoff (Runoff>0 with rain>0); distinct = configuration hash.")
 ASSUMPTIONS = [
+    "a run whose initial profile lies above saturation or below air-dry in some compartment (possible when depth points of one layer are extended into a layer with other hydraulic properties) is outside the domain of valid configurations: counted under the label start_outside_airdry_saturation, not evaluated",
     "rainfall of a day is taken from the harness's own copy of the weather table by date, not from the model's matrix",
     "applied irrigation = reported IrrDay x AppEff/100 for strategies 1,2,3,5 (0 for rainfed and net irrigation)",
     "generator keeps the effective curve number <= 100 (the property's stated domain)",
@@ -32,7 +33,7 @@ def strategy(tier):
 def evaluate(cfg):
     tr, res = observe(cfg)
     res.sample = base_sample(cfg, tr)
-    if tr.n == 0:
+    if tr.n == 0 or not tr.start_ok:
         return res
     idx, n = rows(tr)
     if n == 0:
